@@ -12,7 +12,7 @@
    planner is refuted (C16_*_legacy_refuted), on the planner and on the protocol. *)
 From Coq Require Import List NArith Bool Permutation.
 From GS Require Import LTS Cluster ClusterLTS ClusterPlan ClusterFix ClusterFixPlan ClusterRun ClusterInv
-     ClusterStep ClusterMain ClusterRound ClusterRoundB ClusterRoundC ClusterHist ClusterFsm ClusterGo ClusterLive.
+     ClusterStep ClusterMain ClusterRound ClusterRoundB ClusterRoundC ClusterHist ClusterFsm ClusterGo ClusterLive ClusterTable ClusterMon ClusterMonP.
 Import ListNotations.
 Open Scope N_scope.
 
@@ -204,6 +204,53 @@ Theorem C16_self_exited_child_is_kept :
             count (s_entries (g_s g)) = 2%nat /\ s_next (g_s g) = 2.
 Proof. eexists. split; [vm_compute; reflexivity|]. repeat split. Qed.
 
+(* ---- the property as an executable monitor over the observable trace (audit2 M3, M4) ----
+   ClusterMon.c16_holdsb runs a small state machine over the events the harness logs at the mock servers
+   and at the public API (factory calls, Run / Stop() calls and returns, the servers' own reports, offers
+   and their receipt, GetServerCount / GetState, Run's return) and checks, from those events alone:
+   1 no factory call for an id while an instance of that id is started and its Stop() has not returned,
+   2 nothing started and not stopped when Run returns, 3 GetServerCount = servers started and not stopped
+   (>= between a cancellation and Run's return), 4/5 at an idle point (no shutdown trigger seen, last map
+   received) the running servers are exactly the (id, configuration) pairs of the last offered map, minus
+   the ids whose start failed since that offer, 6 GetState never Error, 7 Running at an idle point,
+   8 no server sees its context cancelled unless the context given to Run was cancelled, Stop() was called
+   on the cluster, or the server had announced it would not become ready.
+   EVERY schedule of the liveness model passes it - so, by C16_acceptor_sound, every accepted trace of
+   the real Runner does, and a trace that fails it is outside the model. *)
+Theorem C16_monitor_sound : forall d ls g,
+  run (gstep true) (ginit d) ls = Some g -> c16_holdsb (obs_trace gobs ls) = true.
+Proof. exact mon_sound. Qed.
+
+(* The ghost fields of the protocol model, read off the observable history: the monitor state reached on
+   the trace - a function of the events only - has the model's live and stopping instances; once the last
+   offered map has been received (and no shutdown began) [s_des] is exactly the entries of THAT map; and
+   every id in [s_failed] had a start fail since that offer (a factory error, or an instance created since
+   the offer whose Stop() returned). *)
+Theorem C16_ghost_fields_from_trace : forall d ls g,
+  run (gstep true) (ginit d) ls = Some g ->
+  exists m, mrun m0 0 (obs_trace gobs ls) = inl m /\
+    m_live m = s_live (g_s g) /\ m_stopping m = s_stopping (g_s g) /\
+    (s_offer (g_s g) = None -> s_shut (g_s g) = false -> s_des (g_s g) = new_entries (m_last m)) /\
+    (s_offer (g_s g) = None -> incl (s_failed (g_s g)) (m_failed m)).
+Proof. exact ghost_fields_from_trace. Qed.
+
+(* ---- ties (audit2 L5, L7) ---- *)
+
+(* The acceptors' event equality tests decide equality, so the generic soundness theorem of the
+   acceptor (LTS.accepts_sound) applies with no hypothesis left: every state the C16 acceptor returns
+   for a trace is reached by a schedule of the liveness model whose observable trace is exactly that
+   trace (hence every theorem over all schedules holds of every accepted implementation trace). *)
+Theorem C16_acceptor_sound : forall d fuel t g,
+  In g (fst (gaccept d fuel t)) ->
+  exists ls, LTS.run (gstep true) (ginit d) ls = Some g /\ obs_trace gobs ls = t.
+Proof. exact gaccept_sound. Qed.
+
+(* The FSM transition table of the model is the table dumped from the go-fsm linked into the
+   repository (coq/gen/FsmTable.v, regenerated by ./check C08), on the states a started cluster has. *)
+Theorem C16_fsm_table_is_dumped : forall a b,
+  fsm_allowed a b = Fsm.allowedb FsmTable.fsm_cfg (st_of a) (st_of b).
+Proof. exact fsm_allowed_is_dumped_table. Qed.
+
 (* ---- the legacy planner (fx = false, before dec72e6): refuted (F9) ---- *)
 
 (* ids a and a:stop both running, a's configuration changes: in one iteration order the old instance
@@ -256,6 +303,10 @@ Print Assumptions C16_live_servers_run.
 Print Assumptions C16_runs_exactly.
 Print Assumptions C16_liveness_schedules_project.
 Print Assumptions C16_self_exited_child_is_kept.
+Print Assumptions C16_monitor_sound.
+Print Assumptions C16_ghost_fields_from_trace.
+Print Assumptions C16_acceptor_sound.
+Print Assumptions C16_fsm_table_is_dumped.
 Print Assumptions C16_converge_legacy_refuted.
 Print Assumptions C16_none_leaked_legacy_refuted.
 Print Assumptions C16_count_legacy_refuted.
@@ -386,3 +437,21 @@ Example C16_ex_live_hyps :
             dcfg (s_des (g_s g)) id_a = Some 1 /\ dcfg (s_des (g_s g)) [99] = Some 2 /\
             In [99] (s_failed (g_s g)).
 Proof. eexists. split; [vm_compute; reflexivity|]. repeat split; vm_compute; auto. Qed.
+
+(* C16_acceptor_sound: the acceptor does return a state for a trace of the real Runner *)
+Example C16_ex_accepted :
+  exists g, In g (fst (gaccept false 100 [GE (EOffer [(id_a, Some 0)]); GESent; GE (EFactory id_a 0 0 BReady);
+                                           GE (ERunCall 0); GE (ECount 1); GE (EState CRunning)])).
+Proof. eexists. vm_compute. left. reflexivity. Qed.
+
+(* C16_monitor_sound / C16_ghost_fields_from_trace: a liveness schedule (ex_live_schedule above: restart, failed
+   start) - and the monitor does reject: the counter-change of audit2 H2 (context cancelled right after the start)
+   fails clause 8, a wrong count clause 3 *)
+Example C16_ex_monitor :
+  c16_holdsb (obs_trace gobs ex_live_schedule) = true /\
+  c16_monitor [GE (EOffer [(id_a, Some 0)]); GESent; GE (EFactory id_a 0 0 BReady); GE (ERunCall 0); GECtxSeen 0]
+    = Some (4%nat, 8) /\
+  c16_monitor [GE (EOffer [(id_a, Some 0)]); GESent; GE (EFactory id_a 0 0 BReady); GE (ERunCall 0); GE (ECount 0)]
+    = Some (4%nat, 3) /\
+  c16_monitor [GE (EOffer [(id_a, Some 0)]); GESent; GE (ECount 0)] = Some (2%nat, 5).
+Proof. repeat split; vm_compute; reflexivity. Qed.
